@@ -19,9 +19,11 @@ type An struct {
 	E *Effects
 	R *Report
 	// atomicMask: which origins of a failure AtomicScan pairs writes with (0: validation of the input)
-	atomicMask Origin
-	effFns     map[*ssa.Function][]string
-	gateFn     map[string]string
+	atomicMask   Origin
+	effFns       map[*ssa.Function][]string
+	gateFn       map[string]string
+	failAlts     [][][]string
+	boundsFilter func(string) bool
 }
 
 type propFn func(a *An)
@@ -101,6 +103,21 @@ func main() {
 			}
 			return
 		}
+		if os.Getenv("DBG_RET") != "" {
+			an := &An{C: c, F: NewFE(c), E: NewEffects(c), R: nil}
+			if f, ok := c.Fn(*dump); ok {
+				for b, g := range an.blockGates(f, 0) {
+					fmt.Printf("block %d: %v\n", b.Index, g)
+				}
+				for _, e := range an.returnEntries(f, 0) {
+					fmt.Printf("entry %v => %v\n", e.gates, e.res)
+				}
+				for i, alts := range an.failAlts {
+					fmt.Printf("alts %d: %v\n", i, alts)
+				}
+			}
+			return
+		}
 		if os.Getenv("DBG_CALLEES") != "" {
 			dbgCallees(c, *dump)
 			return
@@ -165,6 +182,7 @@ func main() {
 			an.closedGates(id)
 			an.closedEraseSites(id)
 			an.closedConstArgs(id)
+			an.closedReturns(id)
 			r.Extra["configurations"] = appendStr(r.Extra["configurations"], cfgName)
 			r.Extra["functions_analysed"] = len(c.FuncSeq)
 			r.Extra["callgraph_nodes"] = len(c.CG.Nodes)
